@@ -7,6 +7,7 @@ import EupsModel.Lemmas.TableLegacy
 import EupsModel.Lemmas.TableLegacyOld
 import EupsModel.Lemmas.TableArgs
 import EupsModel.Lemmas.TableWritten
+import EupsModel.Lemmas.TableDeclOpts
 /-! C11 — table files mean what they say.  Property theorems only: the specification side is in
 `Spec/C11.lean`, the models in `Model/{Cond,CondPinned,TableParse}.lean`, the lemmas in `Lemmas/Cond*.lean`. -/
 namespace EupsModel.C11
@@ -359,6 +360,59 @@ theorem C11_command_kinds (pdir : Option Str) (args : List Str) :
     rcases h with h | h <;> simp [normalise, h]
   · intro a b rest h; subst h; rfl
 
+/-- **The remaining commands.**  `addAlias`, `declareOptions`, `print`, `prodDir`, `setupEnv` keep the arguments
+written (no arity rule); `sourceRequired` is skipped by design; `envUnset` (= `unsetenv` = `pathRemove`) of the
+product's own directory variable — written as `PRODUCT_DIR` or by its name — is kept with the variable's name as
+its argument, of any other variable it is skipped; the reader refuses (`BadTableContent`) `envUnset` with other
+than one argument, `envSet` with fewer than two, `envAppend`/`envPrepend` with fewer than two or more than three. -/
+theorem C11_command_kinds_rest (pdir : Option Str) (args : List Str) :
+    normalise pdir .addAlias args = .act ⟨Cmd.addAlias.name, dropF args, .none⟩ ∧
+    normalise pdir .declareOptions args = .act ⟨Cmd.declareOptions.name, dropF args, .none⟩ ∧
+    normalise pdir .doPrint args = .act ⟨Cmd.doPrint.name, dropF args, .none⟩ ∧
+    normalise pdir .prodDir args = .act ⟨Cmd.prodDir.name, dropF args, .none⟩ ∧
+    normalise pdir .setupEnv args = .act ⟨Cmd.setupEnv.name, dropF args, .none⟩ ∧
+    normalise pdir .sourceRequired args = .skip ∧
+    (∀ pv a, pdir = some pv → (a = sProductDir ∨ a = pv) →
+      normalise pdir .envUnset [a] = .act ⟨Cmd.envUnset.name, dropF [pv], .none⟩) ∧
+    (∀ pv a, pdir = some pv → a ≠ sProductDir → a ≠ pv → normalise pdir .envUnset [a] = .skip) ∧
+    (∀ a, pdir = none → a ≠ sProductDir → normalise pdir .envUnset [a] = .skip) ∧
+    (args.length ≠ 1 → normalise pdir .envUnset args = .bad) ∧
+    (args.length < 2 → normalise pdir .envSet args = .bad) ∧
+    ((args.length < 2 ∨ 3 < args.length) →
+      normalise pdir .envPrepend args = .bad ∧ normalise pdir .envAppend args = .bad) := by
+  refine ⟨rfl, rfl, rfl, rfl, rfl, rfl, ?_, ?_, ?_, ?_, ?_, ?_⟩
+  · intro pv a hp h; subst hp
+    rcases h with h | h <;> subst h <;> simp [normalise]
+  · intro pv a hp h1 h2; subst hp; simp [normalise, h1, h2]
+  · intro a hp h1; subst hp; simp [normalise, h1]
+  · intro h
+    match args, h with
+    | [], _ => rfl
+    | [_], h => simp at h
+    | _ :: _ :: _, _ => rfl
+  · intro h
+    match args, h with
+    | [], _ => rfl
+    | [_], _ => rfl
+    | _ :: _ :: _, h => simp at h; omega
+  · intro h
+    have : (decide (args.length < 2) || decide (args.length > 3)) = true := by
+      rcases h with h | h <;> simp [h]
+    simp [normalise, this]
+
+/-- **The documented command words.**  The reader's dictionary maps the lower-cased command word to the command:
+`pathAppend`/`pathPrepend`/`pathSet`/`setenv` are `envAppend`/`envPrepend`/`envSet`/`envSet`,
+`unsetenv`/`pathRemove` are `envUnset`; every other word stands for itself; anything else is no command. -/
+theorem C11_command_words :
+    (∀ c ∈ allCmds, cmdTable.lookup (Str.lower c.name) = some c) ∧
+    cmdTable.lookup (Str.ofString "pathappend") = some .envAppend ∧
+    cmdTable.lookup (Str.ofString "pathprepend") = some .envPrepend ∧
+    cmdTable.lookup (Str.ofString "pathset") = some .envSet ∧
+    cmdTable.lookup (Str.ofString "setenv") = some .envSet ∧
+    cmdTable.lookup (Str.ofString "unsetenv") = some .envUnset ∧
+    cmdTable.lookup (Str.ofString "pathremove") = some .envUnset ∧
+    cmdTable.length = 20 := by decide +kernel
+
 /-- **C11_written_command.**  A command line as written — indentation, the command word in any letter case, blanks
 before `(`, a written argument list (`C11_args`), `)`, an optional `;`, blanks, a trailing comment — whose
 arguments hold no `#` and none of the seven old variable names `_rewrite` replaces, is one of the lines
@@ -425,5 +479,78 @@ theorem C11_args_empty_quoted_witness :
       = [Str.ofString "\"\", \"a", Str.ofString "b\""] ∧
     parseArgs repaired (Str.ofString "\"\", \"a b\"") = [[], Str.ofString "a b"] := by
   decide +kernel
+
+/-! ## `declareOptions` (what `eups declare` reads from the table) -/
+
+/-- **C11_declare_options_selection.**  `Table.getDeclareOptions(flavor, types)` — a second copy of the branch
+selection loop — reads its options off exactly the actions `Table.actions(flavor, types)` returns, for every table
+text, reader variant, product and environment (errors included). -/
+theorem C11_declare_options_selection (v : Variant) (pdir : Option Str) (env : Env) (text : Str) :
+    tableDeclOpts v pdir env text = (tableActions v pdir env text).bind fun as => .ok (blockOpts [] as) :=
+  tableDeclOpts_actions v pdir env text
+
+/-- **C11_declare_options_text.**  For every written table (`C11_blocks_text`): the options `eups declare` sees are
+those of the `declareOptions` commands among the actions the table denotes — unconditional ones and those of the
+one applicable branch of every chain, in order, a later option replacing an earlier one with the same key. -/
+theorem C11_declare_options_text (env : Env) (hfl : flavorOK env.flavor = true) (pdir : Option Str) (t : List TItemT)
+    (hok : t.all (TItemT.ok pdir) = true) (nl : Bool) :
+    tableDeclOpts repaired pdir env (tableText t nl) = .ok (blockOpts [] (denoteTable env (tableAbs t))) := by
+  rw [tableDeclOpts_actions, C11_blocks_text env hfl pdir t hok nl]; rfl
+
+/-- **C11_declare_option_words.**  `=` separates the words of `declareOptions` like blanks and commas do: for
+arguments without white space inside (every unquoted argument) the words are the non-empty pieces between `=`
+signs — so `k=v`, `k = v`, `k =v`, `k= v` all give the words `k`, `v`; and one option written `k = v` inside a quoted
+argument, with any white space around the `=`, gives `k`, `v` too. -/
+theorem C11_declare_option_words :
+    (∀ args : List Str, (∀ a ∈ args, noSpace a = true) →
+      optWords args = (args.flatMap (splitOn 61 [])).filter (fun w => !w.isEmpty)) ∧
+    (∀ k s1 s2 v : Str, 61 ∉ k → 61 ∉ v → blank s1 = true → blank s2 = true →
+      (k.getLast?.map Str.isSpace).getD false = false → (v.head?.map Str.isSpace).getD false = false →
+      splitEq (k ++ s1 ++ 61 :: (s2 ++ v)) = [k, v]) := by
+  refine ⟨?_, fun k s1 s2 v hk hv h1 h2 hkl hvh => splitEq_written hk hv h1 h2 hkl hvh⟩
+  intro args h
+  simp only [optWords]
+  congr 1
+  induction args with
+  | nil => rfl
+  | cons a rest ih =>
+    simp only [List.flatMap_cons, splitEq_noSpace (h a (by simp)), ih (fun x hx => h x (by simp [hx]))]
+
+/-! ### non-vacuity -/
+
+/-- `declareOptions(flavor=NULL, name = foo, "x_y  =1.2", flavor= Linux, version)` as tokenised -/
+def optsAction : Action :=
+  ⟨Cmd.declareOptions.name, [Str.ofString "flavor=NULL", Str.ofString "name", [61], Str.ofString "foo", Str.ofString "x_y  =1.2",
+    Str.ofString "flavor=", Str.ofString "Linux", Str.ofString "version"], .none⟩
+
+example : parseArgs repaired (Str.ofString "flavor=NULL, name = foo, \"x_y  =1.2\", flavor= Linux, version") = optsAction.args := by
+  decide +kernel
+example : blockOpts [] [actA, optsAction] =
+    [(Str.ofString "flavor", Str.ofString "Linux"), (Str.ofString "name", Str.ofString "foo"),
+     (Str.ofString "x_y", Str.ofString "1.2")] := by decide +kernel
+
+/-! ### `getDeclareOptions` as pinned (before the repair of D111) -/
+
+/-- an `if` / `else if` chain of eight branches, each declaring a flavor -/
+def longChainText : Str := Str.ofString "if (FLAVOR == F0) {\n  declareOptions(flavor=G0)\n} else if (FLAVOR == F1) {\n  declareOptions(flavor=G1)\n} else if (FLAVOR == F2) {\n  declareOptions(flavor=G2)\n} else if (FLAVOR == F3) {\n  declareOptions(flavor=G3)\n} else if (FLAVOR == F4) {\n  declareOptions(flavor=G4)\n} else if (FLAVOR == F5) {\n  declareOptions(flavor=G5)\n} else if (FLAVOR == F6) {\n  declareOptions(flavor=G6)\n} else if (FLAVOR == F7) {\n  declareOptions(flavor=G7)\n}\n"
+
+/-- what the reader makes of it: one entry of `_actions` with 17 elements -/
+def longChain : Chain :=
+  (List.range 8).flatMap (fun i => [Item.cond (Str.ofString "FLAVOR == F" ++ [48 + i]),
+    Item.blk [⟨Cmd.declareOptions.name, [Str.ofString "flavor=G" ++ [48 + i]], .none⟩]]) ++ [Item.blk []]
+
+/-- **D111 as pinned.**  On a chain of more than seven branches the loop of `getDeclareOptions` stops in the debugger
+(`pdb.set_trace()`, left in the library) before it evaluates anything — for every flavor and setup type;
+`Table.actions` on the same table is fine, and so is the repaired loop. -/
+theorem C11_declare_options_debugger_witness :
+    parse repaired none longChainText = .ok [longChain] ∧
+    (∀ env d, declOptsGoPinned repaired env d [longChain] = .ok none) ∧
+    actions repaired ⟨Str.ofString "F7", []⟩ [longChain]
+      = .ok [⟨Cmd.declareOptions.name, [Str.ofString "flavor=G7"], .none⟩] ∧
+    declOptsGo repaired ⟨Str.ofString "F7", []⟩ [] [longChain] = .ok [(Str.ofString "flavor", Str.ofString "G7")] ∧
+    declOptsGo repaired ⟨Str.ofString "SunOS", []⟩ [] [longChain] = .ok [] := by
+  refine ⟨by decide +kernel, fun env d => ?_, by decide +kernel, by decide +kernel, by decide +kernel⟩
+  have : longChain.length > 15 := by decide
+  simp [declOptsGoPinned, this]
 
 end EupsModel.C11
